@@ -57,12 +57,15 @@ func newQView(r *real.Runner) *qview {
 		v.bcn = append(v.bcn, qreg{id: b.BeaconId, first: b.FirstIdInState, last: b.LastTimestampId, num: b.NumInState, owner: sym.TokString(b.Owner), moniker: script.Tok(b.Moniker)})
 	}
 	v.bcnNext, _ = a.BeaconKeeper.GetHighestBeaconID(ctx)
-	a.StreamKeeper.IterateAllStreams(ctx, func(recv, send sdk.AccAddress, _ streamtypes.Stream) bool {
-		if r, s := sym.TokBytes(recv), sym.TokBytes(send); usable(r) && usable(s) {
-			v.streams = append(v.streams, [2]string{r, s})
-		}
-		return false
-	})
+	func() {
+		defer func() { _ = recover() }() // a key the parser chokes on: the digest reports it
+		a.StreamKeeper.IterateAllStreams(ctx, func(recv, send sdk.AccAddress, _ streamtypes.Stream) bool {
+			if r, s := sym.TokBytes(recv), sym.TokBytes(send); usable(r) && usable(s) {
+				v.streams = append(v.streams, [2]string{r, s})
+			}
+			return false
+		})
+	}()
 	return v
 }
 
@@ -152,7 +155,9 @@ func (q *qgen) addr(all []string) string {
 }
 
 // usable reports whether a token printed from the state can be written into a script line.
-func usable(t string) bool { return len(t) > 1 && (t[0] == 'A' || t[0] == 'U' || t[0] == 'M') }
+func usable(t string) bool {
+	return len(t) > 1 && (t[0] == 'A' || t[0] == 'U' || t[0] == 'M' || t[0] == 'L')
+}
 
 func (q *qgen) regID(items []qreg, next uint64) (qreg, string) {
 	if len(items) > 0 && q.g.chance(70) {
